@@ -677,6 +677,10 @@ class Repo:
             return None
         if base.kind == "self":
             ci: ClassInfo = base.value
+            # backend classes: methods are overridable through register_method, so
+            # ``self.<prim>`` is the *dispatched* primitive, not the base-class stub
+            if ci.find_method("register_method") is not None and attr in self.backend_names:
+                return Ent("backend", attr)
             f = ci.find_method(attr)
             if f is not None:
                 return Ent("func", f, "bound")
